@@ -32,6 +32,22 @@ func genC11Hammer(seed uint64, r *rng) *Scenario {
 	for i := range ins {
 		ins[i] = genInput(r, pp, r.chance(1, 3))
 	}
+	// deep: every call grows its runner's backtracking stack far beyond the initial size (what a Regexp does
+	// with its big runners - keeps them apart, drops them, sizes new ones after them - happens under
+	// concurrency), long pre-emptions at statement granularity
+	deep := r.chance(1, 8)
+	if deep {
+		sc.Mode = "hammer-deep"
+		dp := []string{`(?:a|b)*c`, `(a|b|c)*d`, `(?:(a)|(b)|(c)|(ab)|(bc)|(ca)|(abc))*$`, `^(?:([a-z])([0-9]))*$`}[r.n(4)]
+		s = ReSpec{Pat: dp}
+		sc.Res = []ReSpec{s}
+		pp = &pat{Pat: dp, Frags: []string{"a", "b", "ab", "c", "a1", "d"}}
+		kinds = []int{OpFindString, OpMatchString, OpFindRunes, OpFindAllString}
+		unit := []string{"ab", "a1", "abc", "ba"}[r.n(4)]
+		for i := range ins {
+			ins[i] = InputSpec{Unit: unit, Rep: 1200 + r.n(2500), Suf: []string{"c", "d", "", "!"}[r.n(4)]}
+		}
+	}
 	nrep := 1 + r.n(3)
 	off := r.n(len(repls))
 	if r.chance(1, 3) {
@@ -100,6 +116,14 @@ func genC11Hammer(seed uint64, r *rng) *Scenario {
 		cfg.WakeRunProb = 700
 		for k := 1 + r.n(4); k > 0; k-- {
 			cfg.Preempts = append(cfg.Preempts, vsim.Preempt{AfterSync: 1 + r.i64(int64(10*sc.nops())+4), Delta: preDeltas[r.n(len(preDeltas))]})
+		}
+		sort.SliceStable(cfg.Preempts, func(i, j int) bool { return cfg.Preempts[i].AfterSync < cfg.Preempts[j].AfterSync })
+	}
+	if deep {
+		cfg.Policy, cfg.Quantum, cfg.SwitchProb, cfg.WakeRunProb = vsim.Adversarial, 200_000+r.i64(400_000), uint32(r.n(60)), 700
+		cfg.Preempts = cfg.Preempts[:0]
+		for k := 3 + r.n(6); k > 0; k-- {
+			cfg.Preempts = append(cfg.Preempts, vsim.Preempt{AfterSync: 1 + r.i64(int64(12*sc.nops())+4), Delta: r.i64(40)})
 		}
 		sort.SliceStable(cfg.Preempts, func(i, j int) bool { return cfg.Preempts[i].AfterSync < cfg.Preempts[j].AfterSync })
 	}
